@@ -7,7 +7,7 @@ MODULES = ['PistacheModel.Props.C15']
 THEOREMS = ['Pistache.ClientPool.Props.' + t for t in ('run_inv', 'own_response', 'connection_limit', 'in_step', 'holders_run', 'settled_at_most_once', 'old_client_misattributes')]
 
 def gen(tier, rnd):
-    L = ['cl 1 1 2500 D600:t300,I,I', 'cl 1 1 2500 D600:t300,D600:t300,I', 'cl 1 2 1500 N:t300,I,I', 'cl 1 1 2000 I,I,I,I', 'cl 2 3 3000 I,D500:t200,I,I,N:t300,K,B,I,I,I']
+    L = ['cl 1 2 1500 I,I,I,I,I,/,I,I,I,/,I,/,I,I,I,I', 'cl 1 1 1500 I,/,I,I,/,I', 'cl 2 3 1500 I,I,I,I,/,I,/,D200,I,I,I,I', 'cl 1 1 2500 D600:t300,I,I', 'cl 1 1 2500 D600:t300,D600:t300,I', 'cl 1 2 1500 N:t300,I,I', 'cl 1 1 2000 I,I,I,I', 'cl 2 3 3000 I,D500:t200,I,I,N:t300,K,B,I,I,I']
     N = 24 if tier == 'quick' else 300
     for _ in range(N):
         threads = rnd.choice([1, 1, 2, 3]); m = rnd.choice([1, 1, 2, 3, 4]); n = rnd.choice([1, 2, 3, 5, 8, 12] if tier == 'quick' else [1, 2, 3, 5, 8, 12, 20, 40])
@@ -23,6 +23,10 @@ def gen(tier, rnd):
             else: b = 'N:t%d' % rnd.choice([200, 300])
             bs.append(b)
         if rnd.random() < .15: bs.append('X')
+        elif rnd.random() < .3 and len(bs) >= 2 and not any(b.startswith('N') and ':t' not in b for b in bs):
+            # several batches: each is issued when the one before is settled (the pool overflows, drains and is used again)
+            for _ in range(rnd.choice([1, 2, 3])): bs.insert(rnd.randrange(1, len(bs)), '/')
+            bs = [b for i, b in enumerate(bs) if not (b == '/' and i > 0 and bs[i - 1] == '/')]
         L.append('cl %d %d 6000 %s' % (threads, m, ','.join(bs)))
     return L
 
@@ -31,7 +35,7 @@ BAD = ('ASAN', 'UBSAN', 'HANG', 'CRASH', 'TERMINATE', 'MISSING', 'bad-op', 'serv
 def oracle(ln, out):
     """direct statement of C15"""
     if any(x in out for x in BAD): return ('crash', 'implementation aborted/hung: ' + out[:120])
-    w = ln.split(); m = int(w[2]); behs = w[4].split(',')
+    w = ln.split(); m = int(w[2]); behs = [b for b in w[4].split(',') if b != '/']
     mm = re.fullmatch(r'results=(\S+) peak=(\d+)', out)
     if not mm: return 'unexpected output ' + out[:100]
     res = mm.group(1).split(','); peak = int(mm.group(2))
@@ -57,7 +61,7 @@ def classify(ln, out):
     w = ln.split()
     return (w[1], w[2], tuple(b[0] + ('t' if ':t' in b else '') for b in w[4].split(',')), out.count('rej:'), out.count('pending'))
 
-RULE = ('batches of 1..12 (thorough 40) requests issued at once through one real client (1..3 threads, connection limit 1..4) to a scripted raw server that answers each request by its tag: immediately, chunked, byte-dribbled, '
+RULE = ('1..4 successive batches (each issued when the previous one is settled) of 1..12 (thorough 40) requests issued at once through one real client (1..3 threads, connection limit 1..4) to a scripted raw server that answers each request by its tag: immediately, chunked, byte-dribbled, '
         'delayed (before or after the client\'s time-out), never, or closing after the answer; each promise\'s outcome and settlement count and the peak number of connections open on the client side are compared with the '
         'model (pool dispatch + virtual-time schedule) and checked by a direct oracle. non-trivial = distinct (threads, limit, behaviour pattern, #rejected, #pending)')
 ASSUME = ['the server answers the requests of one connection in order (HTTP/1.1 without pipelining)', 'delays are kept 250 ms away from time-outs',
